@@ -51,6 +51,9 @@ func runC17(c *core.Ctx) *core.Outcome {
 	}
 	persisted := t.Chance(1, 2)
 	restartEvery := persisted && t.Chance(2, 3)
+	if persisted && !restartEvery {
+		cfg.FinishLate = t.Chance(1, 2) // one engine serves several requests and is finished when retired
+	}
 	nreq := t.Range(2, 12)
 	wa := world.New(a, cfg)
 	wa.UseBackend()
@@ -90,6 +93,8 @@ func runC17(c *core.Ctx) *core.Outcome {
 			}
 		}
 		fresh := restartEvery || (persisted && t.Chance(1, 4))
+		// the inserted request may be served by the engine that is about to be retired
+		freshIns := fresh && (restartEvery || t.Chance(1, 2))
 		t.End()
 
 		// --- insertion in twin B
@@ -97,7 +102,7 @@ func runC17(c *core.Ctx) *core.Outcome {
 			before := snapKey(B.St, B.Ca)
 			storedBefore := storedState(wb, B)
 			nCalls := len(B.CallLog)
-			st := B.Request(cand, fresh)
+			st := B.Request(cand, freshIns)
 			o.Counts["requests"]++
 			if st.Panic != "" {
 				o.Probes["foreign_panic"]++
@@ -125,13 +130,13 @@ func runC17(c *core.Ctx) *core.Outcome {
 						return fail("refused-input-changed-state", i, "refused input %s (error %q) changed the session:\n before %s\n after  %s", short(string(cand)), st.ExecErr, before, after)
 					}
 				}
-				if storedAfter := storedState(wb, B); storedBefore != "" && storedAfter != storedBefore {
+				if storedAfter := storedState(wb, B); !cfg.FinishLate && storedBefore != "" && storedAfter != storedBefore {
 					return fail("refused-input-changed-stored-state", i, "refused input %s (error %q) changed the stored session:\n before %s\n after  %s", short(string(cand)), st.ExecErr, storedBefore, storedAfter)
 				}
 				o.Probes["refusal_checked_against_snapshot"]++
 			}
 		}
-		if insert == 2 && persisted {
+		if insert == 2 && persisted && !cfg.FinishLate {
 			// ask for output before anything was executed: fresh engine, Flush, Finish
 			storedBefore := storedState(wb, B)
 			msg, out, err := flushOnly(B)
@@ -154,7 +159,7 @@ func runC17(c *core.Ctx) *core.Outcome {
 
 		// --- the regular request in both twins
 		sa := A.Request(in, fresh)
-		sb := B.Request(in, fresh || (insert == 2 && persisted))
+		sb := B.Request(in, fresh || (insert == 2 && persisted && !cfg.FinishLate))
 		o.Counts["requests"] += 2
 		if fresh {
 			o.Faults["restart"]++
